@@ -3,10 +3,20 @@
 //! Reads one case per stdin line, prints one line of tab-separated `key=value` observables:
 //!
 //!   text w   <hex>                      display widths (`width_cjk`) of the characters of the string
-//!   text c12 <hex>                      Position::new / line_col / line_of, pest-typed (`t.*`) and pest 2.7.14 (`p.*`)
-//!   text c13 <hex> <v|d>                Span::new / as_str / split / lines / lines_span / get / merge_spans, `t.*` and `p.*`
-//!   text c14 <hex> <v|d> <cp:w,...>     Display of every span and position (default and bracketing FormatOption) and
-//!                                       the verdict of an independent renderer-oracle (`cls.*`)
+//!   text c12 <hex> [<p,p,...>]          (at every offset, or at the listed ones) Position::new / line_col / line_of, pest-typed (`t.*`) and pest 2.7.14 (`p.*`)
+//!   text c13 <hex> <v|d>[l]             Span::new / as_str / split / lines / lines_span / get / merge_spans, `t.*` and `p.*`
+//!                                       (`l`ight: without the get and merge matrices, for long texts)
+//!   text c13x <hex>                     Span::get with bounds at the top of the usize range (`usize::MAX`, `MAX-1`, input
+//!                                       length, …) in all nine bound forms and the native range forms, plus Span::new /
+//!                                       Position::new at `usize::MAX`; pest-typed only (pest 2.7.14 overflows there), run
+//!                                       in BOTH build profiles (`build=debug|release`): a panic is the outcome `P`
+//!   text c13i <hexA> <hexB>             two DIFFERENT input objects (equal or different text): merge_spans across them,
+//!                                       `==` and `Hash` of their spans, `t.*` and `p.*`
+//!   text c14e <hex>                     Display of every span and position with four options one of whose callbacks FAILS
+//!                                       (text written so far + Ok/Err), next to the full bracketed rendering
+//!   text c14 <hex> <v|d> <cp:w,...> [<a:b,...;p,...>]
+//!                                       Display of every (or of the listed) span and position (default and bracketing
+//!                                       FormatOption) and the verdict of an independent renderer-oracle (`cls.*`)
 //!
 //! Strings are hex-encoded UTF-8 ("-" is the empty string).  With `d` (digest) every bulky field is
 //! replaced by `#` + FNV-1a-64 of its verbose value; the Lean `model_driver` prints the same `t.*`
@@ -40,7 +50,7 @@ use span::Span;
 use std::io::{BufRead, Write};
 use std::ops::Bound;
 use std::panic::{catch_unwind, AssertUnwindSafe};
-use unicode_width::{UnicodeWidthChar, UnicodeWidthStr};
+use unicode_width::UnicodeWidthStr;
 
 fn hex(s: &str) -> String {
     if s.is_empty() {
@@ -106,10 +116,13 @@ fn off(base: &str, sub: &str) -> usize {
 // C12
 
 macro_rules! c12_side {
-    ($out:expr, $pfx:expr, $Pos:path, $s:expr) => {{
+    ($out:expr, $pfx:expr, $Pos:path, $s:expr, $sel:expr) => {{
         let s: &str = $s;
+        let sel: &Option<Vec<usize>> = $sel;
         let mut new = String::new();
-        for p in 0..=s.len() + 1 {
+        // every byte offset 0..=len+1, or (long texts) the listed offsets and their successors
+        let news: Vec<usize> = match sel { None => (0..=s.len() + 1).collect(), Some(v) => v.iter().flat_map(|q| [*q, *q + 1]).collect() };
+        for p in news {
             new.push(match guard(|| <$Pos>::new(s, p).map(|x| x.pos())) {
                 None => 'P',
                 Some(None) => '0',
@@ -118,10 +131,12 @@ macro_rules! c12_side {
         }
         let mut lc = vec![];
         let mut lo = vec![];
-        for p in boundaries(s) {
+        for p in (match sel { None => boundaries(s), Some(v) => v.clone() }) {
             lc.push(match guard(|| <$Pos>::new(s, p).unwrap().line_col()) {
                 None => "P".to_string(),
-                Some((l, c)) => format!("{}:{}", l, c),
+                // `from_start` is the position 0: same answers (else `X`)
+                Some((l, c)) => if p == 0 && guard(|| { let f = <$Pos>::from_start(s); (f.pos(), f.line_col(), off(s, f.line_of()), f.line_of().len()) })
+                    != guard(|| { let f = <$Pos>::new(s, 0).unwrap(); (0, f.line_col(), off(s, f.line_of()), f.line_of().len()) }) { "X".to_string() } else { format!("{}:{}", l, c) },
             });
             lo.push(match guard(|| { let l = <$Pos>::new(s, p).unwrap().line_of(); (off(s, l), l.len()) }) {
                 None => "P".to_string(),
@@ -134,9 +149,9 @@ macro_rules! c12_side {
     }};
 }
 
-fn c12(s: &str, out: &mut Out) {
-    c12_side!(out, "t", pest_typed::Position, s);
-    c12_side!(out, "p", pest::Position, s);
+fn c12(s: &str, out: &mut Out, sel: Option<Vec<usize>>) {
+    c12_side!(out, "t", pest_typed::Position, s, &sel);
+    c12_side!(out, "p", pest::Position, s, &sel);
 }
 
 // ------------------------------------------------------------------------------------------------
@@ -151,8 +166,9 @@ fn mk_bound(kind: char, x: usize) -> Bound<usize> {
 }
 
 macro_rules! c13_side {
-    ($out:expr, $pfx:expr, $Span:path, $merge:path, $s:expr) => {{
+    ($out:expr, $pfx:expr, $Span:path, $merge:path, $s:expr, $light:expr) => {{
         let s: &str = $s;
+        let light: bool = $light;
         let n = s.len();
         let mut new = String::new();
         for a in 0..=n + 1 {
@@ -164,6 +180,8 @@ macro_rules! c13_side {
                 });
             }
         }
+        // first of all: the rest unwraps `Span::new` on every valid range; if that panics the case still carries this field
+        $out.put(&format!("{}.new", $pfx), &new);
         let bs = boundaries(s);
         let mut spans = vec![];
         for &a in &bs { for &b in &bs { if b >= a { spans.push((a, b)); } } }
@@ -180,7 +198,7 @@ macro_rules! c13_side {
                 None => "P".to_string(), Some(t) => t });
             let l = b - a;
             let mut g = vec![];
-            for lo in ['i', 'e', 'u'] {
+            for lo in (if light { vec![] } else { vec!['i', 'e', 'u'] }) {
                 for hi in ['i', 'e', 'u'] {
                     let xs: Vec<usize> = if lo == 'u' { vec![0] } else { (0..=l + 1).collect() };
                     let ys: Vec<usize> = if hi == 'u' { vec![0] } else { (0..=l + 1).collect() };
@@ -196,7 +214,7 @@ macro_rules! c13_side {
             gets.push(g.join(","));
         }
         let mut merges = vec![];
-        for &(a, b) in &spans { for &(c, d) in &spans {
+        for &(a, b) in (if light { &spans[..0] } else { &spans[..] }) { for &(c, d) in &spans {
             let x = <$Span>::new(s, a, b).unwrap();
             let y = <$Span>::new(s, c, d).unwrap();
             merges.push(match guard(|| $merge(&x, &y).map(|r| (r.start(), r.end()))) {
@@ -210,19 +228,167 @@ macro_rules! c13_side {
             + merges.iter().filter(|x| *x == "P").count()
             + new.matches('P').count();
         $out.raw(&format!("{}.np", $pfx), &np.to_string());
-        $out.put(&format!("{}.new", $pfx), &new);
         $out.put(&format!("{}.str", $pfx), &strs.join(";"));
         $out.put(&format!("{}.split", $pfx), &splits.join(";"));
         $out.put(&format!("{}.lines", $pfx), &lines.join(";"));
         $out.put(&format!("{}.ls", $pfx), &ls.join(";"));
-        $out.put(&format!("{}.get", $pfx), &gets.join(";"));
-        $out.put(&format!("{}.merge", $pfx), &merges.join(","));
+        if !light {
+            $out.put(&format!("{}.get", $pfx), &gets.join(";"));
+            $out.put(&format!("{}.merge", $pfx), &merges.join(","));
+        }
     }};
 }
 
-fn c13(s: &str, out: &mut Out) {
-    c13_side!(out, "t", pest_typed::Span, pest_typed::merge_spans, s);
-    c13_side!(out, "p", pest::Span, pest::merge_spans, s);
+fn c13(s: &str, out: &mut Out, light: bool) {
+    c13_side!(out, "t", pest_typed::Span, pest_typed::merge_spans, s, light);
+    c13_side!(out, "p", pest::Span, pest::merge_spans, s, light);
+}
+
+/// Bounds at the top of the `usize` range (and around the span / input length) for `get`.
+fn big_bounds(l: usize, n: usize) -> Vec<usize> {
+    let mut v = vec![];
+    for x in [0, l, l + 1, n, n + 1, usize::MAX - 1, usize::MAX] {
+        if !v.contains(&x) {
+            v.push(x);
+        }
+    }
+    v
+}
+fn show_opt(r: Option<Option<(usize, usize)>>) -> String {
+    match r {
+        None => "P".to_string(),
+        Some(None) => "-".to_string(),
+        Some(Some((u, v))) => format!("{}:{}", u, v),
+    }
+}
+
+/// Spans with start > end, which the public `Position::span` builds without a check: what the operations do on them
+/// (`as_str` / `get` panic — slicing; the line iterators yield nothing).
+macro_rules! c13inv_side {
+    ($out:expr, $pfx:expr, $Pos:path, $s:expr) => {{
+        let s: &str = $s;
+        let bs = boundaries(s);
+        let mut iv = vec![];
+        for &a in &bs { for &b in bs.iter().filter(|b| **b > a) {
+            // with debug assertions `new_unchecked` / `new_internal` refuse such a span (debug_assert!): outcome `P`
+            let inv = match guard(|| <$Pos>::new(s, b).unwrap().span(&<$Pos>::new(s, a).unwrap())) { None => { iv.push("P".to_string()); continue; } Some(x) => x };
+            let se = format!("{}:{}", inv.start(), inv.end());
+            let st = match guard(|| inv.as_str().to_string()) { None => "P".to_string(), Some(t) => hex(&t) };
+            let ls = match guard(|| inv.lines_span().map(|l| format!("{}:{}", l.start(), l.end())).collect::<Vec<_>>().join("+")) { None => "P".to_string(), Some(t) => format!("[{}]", t) };
+            let ln = match guard(|| inv.lines().map(hex).collect::<Vec<_>>().join("+")) { None => "P".to_string(), Some(t) => format!("[{}]", t) };
+            let g = show_opt(guard(|| inv.get(..).map(|r| (r.start(), r.end()))));
+            iv.push(format!("{}/{}/{}/{}/{}", se, st, ls, ln, g));
+        } }
+        $out.raw(&format!("{}.iv", $pfx), &iv.join(","));
+    }};
+}
+
+/// `get` / `new` at the top of the usize range; pest-typed only (see the header).
+fn c13x(s: &str, out: &mut Out) {
+    use pest_typed::{Position, Span};
+    let n = s.len();
+    let bs = boundaries(s);
+    let m = usize::MAX;
+    let mut gx = vec![];
+    let mut gn = vec![];
+    for &a in &bs {
+        for &b in bs.iter().filter(|b| **b >= a) {
+            let sp = Span::new(s, a, b).unwrap();
+            let bb = big_bounds(b - a, n);
+            let mut g = vec![];
+            for lo in ['i', 'e', 'u'] {
+                for hi in ['i', 'e', 'u'] {
+                    let xs: Vec<usize> = if lo == 'u' { vec![0] } else { bb.clone() };
+                    let ys: Vec<usize> = if hi == 'u' { vec![0] } else { bb.clone() };
+                    for &x in &xs { for &y in &ys {
+                        g.push(show_opt(guard(|| sp.get((mk_bound(lo, x), mk_bound(hi, y))).map(|r| (r.start(), r.end())))));
+                    } }
+                }
+            }
+            gx.push(g.join(","));
+            // the native range types: ..=MAX, MAX.., ..MAX, 0..=MAX, MAX..=MAX, 0..MAX, (Excluded(MAX), Unbounded)
+            let f = |r: Option<Option<Span>>| show_opt(r.map(|o| o.map(|x| (x.start(), x.end()))));
+            gn.push([
+                f(guard(|| sp.get(..=m))), f(guard(|| sp.get(m..))), f(guard(|| sp.get(..m))), f(guard(|| sp.get(0..=m))),
+                f(guard(|| sp.get(m..=m))), f(guard(|| sp.get(0..m))), f(guard(|| sp.get((Bound::Excluded(m), Bound::Unbounded)))),
+            ].join(","));
+        }
+    }
+    let f = |r: Option<Option<Span>>| show_opt(r.map(|o| o.map(|x| (x.start(), x.end()))));
+    let news = [
+        f(guard(|| Span::new(s, m, m))), f(guard(|| Span::new(s, 0, m))), f(guard(|| Span::new(s, m, 0))),
+        f(guard(|| Span::new(s, n, m))), f(guard(|| Span::new(s, m - 1, m))),
+        show_opt(guard(|| Position::new(s, m).map(|p| (p.pos(), p.pos())))),
+        show_opt(guard(|| Position::new(s, m - 1).map(|p| (p.pos(), p.pos())))),
+    ].join(",");
+    // Span::new_full
+    let nf = match guard(|| { let f = Span::new_full(s); (f.start(), f.end(), f.as_str() == s && f.get_input().as_ptr() == s.as_ptr()) }) {
+        None => "P".to_string(),
+        Some((u, v, true)) => format!("{}:{}", u, v),
+        Some(_) => "X".to_string(),
+    };
+    out.raw("build", if cfg!(debug_assertions) { "debug" } else { "release" });
+    out.raw("t.nf", &nf);
+    c13inv_side!(out, "t", pest_typed::Position, s);
+    c13inv_side!(out, "p", pest::Position, s);
+    out.raw("t.gx", &gx.join(";"));
+    out.raw("t.gn", &gn.join(";"));
+    out.raw("t.nx", &news);
+}
+
+fn hash_of<T: std::hash::Hash>(t: &T) -> u64 {
+    use std::hash::Hasher;
+    let mut h = std::collections::hash_map::DefaultHasher::new();
+    t.hash(&mut h);
+    h.finish()
+}
+
+macro_rules! c13i_side {
+    ($out:expr, $pfx:expr, $Span:path, $merge:path, $a:expr, $b:expr) => {{
+        // two distinct, non-empty allocations (an empty `String` has no allocation: two of them would share the dangling
+        // address and count as the same input)
+        let ba = format!("{}#", $a);
+        let bb = format!("{}#", $b);
+        let sa: &str = &ba[..$a.len()];
+        let sb: &str = &bb[..$b.len()];
+        let spans = |s: &str| { let bs = boundaries(s); let mut v = vec![]; for &x in &bs { for &y in &bs { if y >= x { v.push((x, y)); } } } v };
+        let (pa, pb) = (spans(sa), spans(sb));
+        // merge across the two inputs; `a`/`b`/`?`: which input object the result points into
+        let mut xm = vec![];
+        let mut xe = String::new();
+        let mut hash_ok = true;
+        for &(a0, a1) in &pa { for &(b0, b1) in &pb {
+            let x = <$Span>::new(sa, a0, a1).unwrap();
+            let y = <$Span>::new(sb, b0, b1).unwrap();
+            xm.push(match guard(|| $merge(&x, &y).map(|r| (r.start(), r.end(), r.get_input().as_ptr() == sa.as_ptr() && r.get_input().len() == sa.len(),
+                                                           r.get_input().as_ptr() == sb.as_ptr() && r.get_input().len() == sb.len()))) {
+                None => "P".to_string(),
+                Some(None) => "-".to_string(),
+                Some(Some((u, v, ia, ib))) => format!("{}:{}{}", u, v, if ia { "a" } else if ib { "b" } else { "?" }),
+            });
+            let e = x == y;
+            xe.push(if e { '1' } else { '0' });
+            if e && hash_of(&x) != hash_of(&y) { hash_ok = false; }
+        } }
+        // the same input object: equal iff the same offsets
+        let mut se = String::new();
+        for &(a0, a1) in &pa { for &(c0, c1) in &pa {
+            let x = <$Span>::new(sa, a0, a1).unwrap();
+            let y = <$Span>::new(sa, c0, c1).unwrap();
+            let e = x == y;
+            se.push(if e { '1' } else { '0' });
+            if e && hash_of(&x) != hash_of(&y) { hash_ok = false; }
+        } }
+        $out.raw(&format!("{}.xm", $pfx), &xm.join(","));
+        $out.raw(&format!("{}.xe", $pfx), &xe);
+        $out.raw(&format!("{}.se", $pfx), &se);
+        $out.raw(&format!("{}.hc", $pfx), if hash_ok { "1" } else { "0" });
+    }};
+}
+
+fn c13i(a: &str, b: &str, out: &mut Out) {
+    c13i_side!(out, "t", pest_typed::Span, pest_typed::merge_spans, a, b);
+    c13i_side!(out, "p", pest::Span, pest::merge_spans, a, b);
 }
 
 // ------------------------------------------------------------------------------------------------
@@ -236,8 +402,11 @@ fn vis(s: &str) -> String {
         })
         .collect()
 }
+/// Width of one character AS A STRING (`UnicodeWidthStr::width_cjk`, what the formatter measures); `wadd` checks that
+/// the width of every measured text is the sum of these.
 fn cw(c: char) -> usize {
-    UnicodeWidthChar::width_cjk(c).unwrap_or(0)
+    let mut b = [0u8; 4];
+    UnicodeWidthStr::width_cjk(&*c.encode_utf8(&mut b))
 }
 fn sw(s: &str) -> usize {
     s.chars().map(cw).sum()
@@ -317,9 +486,15 @@ struct Expect {
 }
 
 /// Does the parsed output satisfy the property for the expected lines and columns?
-fn check(rows: &[Row], s: &str, t: &[(usize, usize)], e: &Expect) -> Result<(), &'static str> {
+fn check(out: &str, rows: &[Row], s: &str, t: &[(usize, usize)], e: &Expect) -> Result<(), &'static str> {
     if rows.iter().any(|r| matches!(r, Row::Unknown)) {
         return Err("unparsable-output");
+    }
+    // the markers point at cells of the text rows only if the bars of all rows are in one column
+    let mut bars = out.lines().map(|l| l.find('|'));
+    let first = bars.next().flatten();
+    if first.is_none() || bars.any(|b| b != first) {
+        return Err("bars-not-aligned");
     }
     let texts: Vec<(usize, &str)> = rows.iter().filter_map(|r| if let Row::Text(n, x) = r { Some((*n, x.as_str())) } else { None }).collect();
     if texts.is_empty() {
@@ -376,7 +551,9 @@ fn check(rows: &[Row], s: &str, t: &[(usize, usize)], e: &Expect) -> Result<(), 
                 if m0 != "v" || *c0 != sw(&vis(&fline[..e.first_col])) {
                     return Err("start-marker-wrong");
                 }
-                if m1 != "^" || *c1 + 1 != sw(&vis(&lline[..e.last_col])) {
+                // under the last cell of the highlighted part; a part without any cell (zero-width characters only)
+                // has its marker at the left edge
+                if m1 != "^" || *c1 != sw(&vis(&lline[..e.last_col])).saturating_sub(1) {
                     return Err("end-marker-wrong");
                 }
             }
@@ -440,20 +617,87 @@ fn span_bracketed(_s: &str, _a: usize, _b: usize) -> Option<String> { Some("unav
 fn pos_bracketed(_s: &str, _a: usize) -> Option<String> { Some("unavailable".to_string()) }
 const HAVE_CUSTOM: bool = cfg!(feature = "srcincl");
 
+/// Display with an option one of whose callbacks FAILS (`Err(fmt::Error)` after writing a mark): `which` = 1: the span
+/// callback, 2: the marker callback, 3: the number callback on `"|"`, 4: the number callback on a line number; the other
+/// callbacks bracket.  Returns the text written so far and whether `display` returned `Ok`; `None` = panic.
+#[cfg(feature = "srcincl")]
+fn failing_display(s: &str, a: usize, b: Option<usize>, which: u8) -> Option<(String, bool)> {
+    use std::fmt::Write as _;
+    guard(|| {
+        let mut o = String::new();
+        let sf = |t: &str, f: &mut String| -> std::fmt::Result {
+            if which == 1 { write!(f, "<S!")?; Err(std::fmt::Error) } else { write!(f, "<S:{}>", t) }
+        };
+        let mf = |t: &str, f: &mut String| -> std::fmt::Result {
+            if which == 2 { write!(f, "<M!")?; Err(std::fmt::Error) } else { write!(f, "<M:{}>", t) }
+        };
+        let nf = |t: &str, f: &mut String| -> std::fmt::Result {
+            if (which == 3 && t == "|") || (which == 4 && t != "|") { write!(f, "<N!")?; Err(std::fmt::Error) } else { write!(f, "<N:{}>", t) }
+        };
+        let opt = formatter::FormatOption::new(sf, mf, nf);
+        let r = match b {
+            Some(b) => Span::new(s, a, b).unwrap().display(&mut o, opt),
+            None => Position::new(s, a).unwrap().display(&mut o, opt),
+        };
+        (o, r.is_ok())
+    })
+}
+#[cfg(not(feature = "srcincl"))]
+fn failing_display(_s: &str, _a: usize, _b: Option<usize>, _which: u8) -> Option<(String, bool)> { Some(("unavailable".to_string(), true)) }
+
+/// `c14e`: every span and position with the four failing options, and the full bracketed rendering next to them.
+fn c14e(s: &str, out: &mut Out) {
+    let bs = boundaries(s);
+    let fmt1 = |r: Option<(String, bool)>| match r { None => "panic".to_string(), Some((o, ok)) => format!("{}:{}", hex(&o), if ok { "K" } else { "E" }) };
+    let (mut es, mut fs, mut ep, mut fp) = (vec![], vec![], vec![], vec![]);
+    for &a in &bs {
+        for &b in bs.iter().filter(|b| **b >= a) {
+            es.push((1..=4).map(|w| fmt1(failing_display(s, a, Some(b), w))).collect::<Vec<_>>().join("|"));
+            fs.push(show(&span_bracketed(s, a, b)));
+        }
+        ep.push((1..=4).map(|w| fmt1(failing_display(s, a, None, w))).collect::<Vec<_>>().join("|"));
+        fp.push(show(&pos_bracketed(s, a)));
+    }
+    out.raw("t.es", &es.join(","));
+    out.raw("t.ep", &ep.join(","));
+    out.raw("full.s", &fs.join(","));
+    out.raw("full.p", &fp.join(","));
+    out.raw("opt", if HAVE_CUSTOM { "custom" } else { "default-only" });
+}
+
 fn show(r: &Option<String>) -> String {
     match r { None => "panic".to_string(), Some(x) => hex(x) }
 }
 
-fn c14(s: &str, out: &mut Out) {
+fn c14(s: &str, out: &mut Out, sel: Option<&str>) {
     let t = table(s);
     let bs = boundaries(s);
-    // is the string width the sum of the character widths on everything the formatter measures?
+    // is the string width the sum of the character widths on everything the formatter measures
+    // (every line and, for lines of moderate length, every prefix and suffix of it)?
     let v = vis(s);
     let additive = UnicodeWidthStr::width_cjk(v.as_str()) == sw(&v)
-        && t.iter().all(|(a, b)| { let l = vis(&s[*a..*b]); UnicodeWidthStr::width_cjk(l.as_str()) == sw(&l) });
+        && t.iter().all(|(a, b)| {
+            let l = vis(&s[*a..*b]);
+            UnicodeWidthStr::width_cjk(l.as_str()) == sw(&l)
+                && (l.len() > 96 || l.char_indices().all(|(i, _)| UnicodeWidthStr::width_cjk(&l[..i]) == sw(&l[..i])
+                    && UnicodeWidthStr::width_cjk(&l[i..]) == sw(&l[i..])))
+        });
+    // which spans / positions: all of them, or the listed ones `a:b,a:b;p,p`
+    let (span_list, pos_list): (Vec<(usize, usize)>, Vec<usize>) = match sel {
+        None => {
+            let mut v = vec![];
+            for &a in &bs { for &b in bs.iter().filter(|b| **b >= a) { v.push((a, b)); } }
+            (v, bs.clone())
+        }
+        Some(sel) => {
+            let (sp, ps) = sel.split_once(';').unwrap_or((sel, ""));
+            (sp.split(',').filter(|x| !x.is_empty()).map(|x| { let (a, b) = x.split_once(':').unwrap(); (a.parse().unwrap(), b.parse().unwrap()) }).collect(),
+             ps.split(',').filter(|x| !x.is_empty()).map(|x| x.parse().unwrap()).collect())
+        }
+    };
     let (mut sd, mut sb, mut cs) = (vec![], vec![], vec![]);
-    for &a in &bs {
-        for &b in bs.iter().filter(|b| **b >= a) {
+    {
+        for &(a, b) in &span_list {
             let d = guard(|| pest_typed::Span::new(s, a, b).unwrap().to_string());
             let br = span_bracketed(s, a, b);
             let first = line_at(&t, a);
@@ -471,7 +715,7 @@ fn c14(s: &str, out: &mut Out) {
                             else { Ok(()) }
                         }
                     } };
-                    match check(&rows, s, &t, &e).and_then(|_| hl_ok(&rows)) {
+                    match check(d, &rows, s, &t, &e).and_then(|_| hl_ok(&rows)) {
                         Ok(()) => "ok".into(),
                         Err(why) => {
                             // the known shape: start on the first byte of a later line, drawn from the previous line
@@ -483,7 +727,7 @@ fn c14(s: &str, out: &mut Out) {
                                 } else {
                                     Expect { first: first - 1, first_col: plen, last, last_col: e.last_col, position: false }
                                 };
-                                match check(&rows, s, &t, &e2).and_then(|_| hl_ok(&rows)) {
+                                match check(d, &rows, s, &t, &e2).and_then(|_| hl_ok(&rows)) {
                                     Ok(()) => "from-previous-line".into(),
                                     Err(w2) => format!("bad:{}/at-line-start:{}", why, w2),
                                 }
@@ -500,7 +744,7 @@ fn c14(s: &str, out: &mut Out) {
         }
     }
     let (mut pd, mut pb, mut cp) = (vec![], vec![], vec![]);
-    for &a in &bs {
+    for &a in &pos_list {
         let d = guard(|| pest_typed::Position::new(s, a).unwrap().to_string());
         let br = pos_bracketed(s, a);
         let first = line_at(&t, a);
@@ -512,7 +756,7 @@ fn c14(s: &str, out: &mut Out) {
                     if a == s.len() { "nothing-at-end-of-input".into() } else { "bad:nothing-rendered".into() }
                 } else {
                     let rows = parse_rows(d);
-                    let r = check(&rows, s, &t, &e).and_then(|_| if !HAVE_CUSTOM { Ok(()) } else { match unbracket(br) {
+                    let r = check(d, &rows, s, &t, &e).and_then(|_| if !HAVE_CUSTOM { Ok(()) } else { match unbracket(br) {
                         None => Err("custom-option-unparsable"),
                         Some((plain, hl)) => if &plain != d { Err("custom-option-differs-from-default") }
                             else if !hl.is_empty() { Err("highlighted-text-wrong") } else { Ok(()) },
@@ -553,16 +797,23 @@ fn main() {
         if f.first() == Some(&"text") {
             f.remove(0);
         }
-        let mut out = Out { digest: f.get(2) == Some(&"d"), buf: String::new() };
+        let mode = f.get(2).copied().unwrap_or("");
+        let mut out = Out { digest: matches!(f.first(), Some(&"c13") | Some(&"c14")) && mode.contains('d'), buf: String::new() };
         let r = guard(|| match f.as_slice() {
             ["w", h] => { let s = unhex(h); out.raw("w", &widths(&s)); }
-            ["c12", h, ..] => c12(&unhex(h), &mut out),
-            ["c13", h, ..] => c13(&unhex(h), &mut out),
-            ["c14", h, ..] => c14(&unhex(h), &mut out),
+            ["c12", h] => c12(&unhex(h), &mut out, None),
+            ["c12", h, offs] => c12(&unhex(h), &mut out, Some(offs.split(',').map(|x| x.parse().unwrap()).collect())),
+            ["c13", h, ..] => c13(&unhex(h), &mut out, mode.contains('l')),
+            ["c13x", h] => c13x(&unhex(h), &mut out),
+            ["c13i", a, b] => c13i(&unhex(a), &unhex(b), &mut out),
+            ["c14e", h, ..] => c14e(&unhex(h), &mut out),
+            ["c14", h, _, _, sel] => c14(&unhex(h), &mut out, Some(sel)),
+            ["c14", h, ..] => c14(&unhex(h), &mut out, None),
             _ => out.raw("v", "badline"),
         });
         if r.is_none() {
-            out.buf = "v=runner-panic".to_string();
+            // keep what was answered before the panic (c13: the `new` matrix)
+            out.raw("v", "runner-panic");
         }
         writeln!(w, "{}", out.buf).unwrap();
     }
